@@ -305,15 +305,16 @@ def check_other_fields(comp, rows_out):
                 raise Fail(comp, f'field {f} changed', None, f'row {r}: {f}={it[f]!r}, expected {v!r}')
 
 
-def eval_scale(cont, cols, params):
-    """Run the real Scale on fresh interactions and compare -> (nontrivial, outcome signature); raises Fail."""
+def eval_scale(cont, cols, params, flt=None):
+    """Run the real Scale (a fresh one, or the given object) on fresh interactions and compare
+    -> (nontrivial, outcome signature); raises Fail."""
     shift, scale, using = params
     rows, cells = build(cont, cols)
     nfeat, n = len(cols), len(rows)
     colcells = [[cells[r][j] for r in range(n)] for j in range(nfeat)]
     refs = [ref_scale_col(tuple(c), using, shift, scale) for c in cols]
     try:
-        out = list(Scale(shift, scale, 'context', using).filter(rows))
+        out = list((flt or Scale(shift, scale, 'context', using)).filter(rows))
     except CobaException as e:
         if cont == 'sparse' and shift != 0: return False, 'scale-rejected-sparse-shift'
         raise Fail('Scale', 'raises CobaException', None, repr(e))
@@ -344,15 +345,16 @@ def eval_scale(cont, cols, params):
     return nontrivial, hash('S' + cont + repr(got_rows))
 
 
-def eval_impute(cont, cols, params):
-    """Run the real Impute on fresh interactions and compare -> (nontrivial, outcome signature); raises Fail."""
+def eval_impute(cont, cols, params, flt=None):
+    """Run the real Impute (a fresh one, or the given object) on fresh interactions and compare
+    -> (nontrivial, outcome signature); raises Fail."""
     stat, indicator, using = params
     rows, cells = build(cont, cols)
     nfeat, n = len(cols), len(rows)
     colcells = [[cells[r][j] for r in range(n)] for j in range(nfeat)]
     refs = [ref_impute_col(tuple(c), using, stat) for c in cols]
     try:
-        out = list(Impute(stat, indicator, using).filter(rows))
+        out = list((flt or Impute(stat, indicator, using)).filter(rows))
     except Exception as e:      # noqa
         if any(r[0] == 'mixed' for r in refs): return False, f'impute-mixed-raises-{type(e).__name__}'
         raise Fail('Impute', f'raises {type(e).__name__}', None, f'Impute.filter raised {e!r}')
@@ -402,6 +404,88 @@ def eval_impute(cont, cols, params):
     return nontrivial, hash('I' + cont + repr(got_rows) + repr(ext))
 
 
+def read_env(env):
+    out = [dict(i) for i in env.read()]
+    return ('ok', canon(out), [jsonable(i.get('context')) for i in out])
+
+
+def guarded(f):
+    try: return f()
+    except Exception as e: return ('raises', type(e).__name__)     # noqa
+
+
+def show_env(r): return f'contexts {r[2]}' if r[0] == 'ok' else str(r)
+
+
+def explicit_env(op, cont, cols, params):
+    """What one environment must read as: the real filters, FRESH objects, applied in order, then wrapped in Environments."""
+    rows, _ = build(cont, cols)
+    if op.endswith('impute'):
+        stats, indicator, using = params
+        def f():
+            data = rows
+            for st in ([stats] if isinstance(stats, str) else list(stats)): data = list(Impute(st, indicator, using).filter(data))
+            return read_env(Environments(MemEnv(data))[0])
+    else:
+        shift, scale, using = params
+        def f(): return read_env(Environments(MemEnv(list(Scale(shift, scale, 'context', using).filter(rows))))[0])
+    return guarded(f)
+
+
+_EXPLICIT = {}
+
+
+def explicit_env_cached(op, cont, cols, params):
+    k = repr((op[-6:], cont, cols, params))
+    if k not in _EXPLICIT:
+        if len(_EXPLICIT) > 100000: _EXPLICIT.clear()
+        _EXPLICIT[k] = explicit_env(op, cont, cols, params)
+    return _EXPLICIT[k]
+
+
+def eval_reuse(op, cont, seq, params):
+    """ONE Scale / Impute object filters the streams of `seq` one after the other; every result must satisfy the
+    reference for ITS OWN window (i.e. equal what a fresh filter gives)."""
+    if op == 'reuse_scale': flt, ev = Scale(params[0], params[1], 'context', params[2]), eval_scale
+    else: flt, ev = Impute(*params), eval_impute
+    sigs, nts = [], []
+    for step, cols in enumerate(seq):
+        try:
+            nt, sig = ev(cont, cols, params, flt)
+        except Fail as f:
+            f.step, f.cols = step, cols
+            raise
+        nts.append(nt); sigs.append(sig)
+    return sum(nts) >= 2, hash(('R', op, tuple(sigs)))
+
+
+def eval_env2(op, cont, seq, params):
+    """ONE Environments.scale / .impute call over several environments with different data: every member, read in
+    the order 0,1,..,0, must read as the explicit fresh-filter composition over its own data."""
+    base = 'env_' + op[5:]
+    comp = 'Environments.impute' if base == 'env_impute' else 'Environments.scale'
+    members = [MemEnv(build(cont, cols)[0]) for cols in seq]
+    try:
+        if base == 'env_impute': envs = Environments(*members).impute(*params)
+        else: envs = Environments(*members).scale(params[0], params[1], 'context', params[2])
+    except Exception as e:      # noqa
+        raise Fail(comp, f'raises {type(e).__name__}', 'several environments', repr(e))
+    if len(envs) != len(seq):
+        raise Fail(comp, 'wrong number of environments', 'several environments', f'{len(seq)} in, {len(envs)} out')
+    sigs = []
+    order = list(range(len(seq))) + [0]
+    for pos, i in enumerate(order):
+        got = guarded(lambda: read_env(envs[i]))
+        exp = explicit_env_cached(base, cont, seq[i], params)
+        if got[:2] != exp[:2]:
+            f = Fail(comp, 'an environment differs from filtering it alone', 'several environments',
+                     f'environment {i} (read number {pos + 1}): {show_env(got)}; alone: {show_env(exp)}')
+            f.step, f.cols = pos, seq[i]
+            raise f
+        sigs.append(got[:2])
+    return all(g[0] == 'ok' for g in sigs) and len({g for g in sigs}) > 1, hash(('E2', op, tuple(sigs)))
+
+
 def eval_env(op, cont, cols, params):
     """Environments.impute / Environments.scale vs the explicit in-order composition of the real filters."""
     rows, _ = build(cont, cols)
@@ -409,12 +493,7 @@ def eval_env(op, cont, cols, params):
 
     def read(envs):
         if len(envs) != 1: return ('n-environments', len(envs))
-        out = [dict(i) for i in envs[0].read()]
-        return ('ok', canon(out), [jsonable(i.get('context')) for i in out])
-
-    def guarded(f):
-        try: return f()
-        except Exception as e: return ('raises', type(e).__name__)     # noqa
+        return read_env(envs[0])
 
     if op == 'env_impute':
         stats, indicator, using = params
@@ -433,13 +512,15 @@ def eval_env(op, cont, cols, params):
         exp = guarded(lambda: read(Environments(MemEnv(list(Scale(shift, scale, 'context', using).filter(rows2))))))
         comp, feat = 'Environments.scale', 'one target'
     if got[:2] != exp[:2]:
-        show = lambda r: f'contexts {r[2]}' if r[0] == 'ok' else str(r)
+        show = show_env
         raise Fail(comp, 'differs from applying the filter(s) in order', feat, f'Environments result: {show(got)}; explicit composition of the filters: {show(exp)}')
     base = guarded(lambda: read(Environments(MemEnv(build(cont, cols)[0]))))
     return exp[0] == 'ok' and exp[:2] != base[:2], hash(('E', op, got[:2]))
 
 
 def evaluate(op, cont, cols, params):
+    if op.startswith('reuse_'): return eval_reuse(op, cont, cols, params)
+    if op.startswith('env2_'): return eval_env2(op, cont, cols, params)
     if op == 'scale': return eval_scale(cont, cols, params)
     if op == 'impute': return eval_impute(cont, cols, params)
     return eval_env(op, cont, cols, params)
@@ -478,8 +559,23 @@ def minimal_feature(op, cont, col, params, comp, mode):
 
 def classify(case, params, f):
     """Violation key = component|failure mode|container shape + minimal discriminating feature of the culprit column."""
-    op, cont, cols = case['op'], case['cont'], case['cols']
+    op, cont = case['op'], case['cont']
     shp = cshape(cont)
+    if op.startswith('reuse_') or op.startswith('env2_'):
+        # a failure that a FRESH filter shows on the same data too is the base failure (same key as there);
+        # otherwise the result depends on what the same object filtered before
+        if not hasattr(f, 'cols'): return f'{f.comp}|{f.mode}|{f.j}'
+        base = op[6:] if op.startswith('reuse_') else 'env_' + op[5:]
+        try:
+            evaluate(base, cont, f.cols, params)
+        except Fail as f0:
+            f.base = (base, f.cols, f0.what)          # replay the plain case, not the re-use sequence
+            return classify({'op': base, 'cont': cont, 'cols': f.cols}, params, f0)
+        earlier = case['seq'][:f.step] if op.startswith('reuse_') else [case['seq'][i] for i in (list(range(len(case['seq']))) + [0])[:f.step]]
+        hist = 'first call' if not earlier else 'same data filtered before' if all(c == f.cols for c in earlier) else 'different data filtered before'
+        if op.startswith('env2_'): return f'{f.comp}|one call over several environments: {f.mode}|{hist}'
+        return f'{f.comp}|result depends on earlier filter() calls of the same object: {f.mode}|{shp} {hist}'
+    cols = case['cols']
     if op.startswith('env'): return f'{f.comp}|{f.mode}|{f.j}'
     if f.mode.startswith('field ') or f.mode in ('output is not an interaction', 'interaction fields added or dropped', 'wrong number of interactions'):
         return f'{f.comp}|{f.mode}|{shp}'
@@ -505,7 +601,11 @@ class C11(Check):
             'counted as one evaluation: Scale shift in {0,2,min,mean,med} x scale in {3,minmax,std,iqr,maxabs} x using in {None,1,2,rows+1} '
             '(sparse: shift 0 x all scales + 4 rejected pairs; large two-feature sub-spaces: 9 representative pairs), Impute stat in {mean,median,mode} '
             'x indicator x using, Environments.impute with every statistic / list of <=2 statistics, Environments.scale with all 25 pairs. '
-            'An evaluation is non-trivial when the reference demands a changed cell or an indicator feature (Environments: output differs from input).')
+            'An evaluation is non-trivial when the reference demands a changed cell or an indicator feature (Environments: output differs from input). '
+            'Re-use dimension: for ALL ordered pairs (A,B) of columns over {1,2,5,None} with <=2 rows (thorough: {1,2,5,None,NaN,"a"} and 3 rows over {1,5,None}; '
+            'plus one-/two-feature context pairs) ONE Scale / Impute object filters A,A,B,A and every result must satisfy the reference for its own window; '
+            'ONE Environments.scale/.impute call over the environments (A,B) is read in the order A,B,A and every member must read as when filtered alone '
+            '(non-trivial: the same object did demanded work at least twice / the members read differently).')
     ASSUMPTIONS = [
         'missing = None, and for Scale also NaN (ignored in the statistics, stays missing in the output: None or NaN accepted)',
         'Impute: a NaN cell, and the replacement value / indicator of a feature with NaN in the window, are not constrained (docstring says nan, code says None)',
@@ -518,9 +618,10 @@ class C11(Check):
         'Impute: a feature with None in the window but no defined statistic (or not imputable by the chosen statistic) may or may not get an indicator; indicator position / key name is free, only a consistent 0/1 column per required feature is demanded; a feature without any missing value in the window must not get one',
         'dense list vs tuple vs other Dense types of the output container are not constrained; input interactions being left unmodified is not demanded here (C04)',
         'Environments.scale/impute are compared (after the Finalize step every Environments member applies) with the explicit in-order composition of the real filters, whose own semantics are checked at filter level',
+        're-use: a filter object is assumed to be applied to streams one after the other (not interleaved); a failure that a fresh filter shows on the same data is reported under the plain key, only history-dependent failures get the re-use key',
         'violation keys name the culprit column after greedy minimisation (missing cells that are not needed for the failure are replaced by numbers), so one root cause maps to one key per container shape',
     ]
-    MIN_NONTRIVIAL = {'quick': 100000, 'thorough': 1000000}
+    MIN_NONTRIVIAL = {'quick': 150000, 'thorough': 1000000}
     TECHNIQUE = 'bounded-exhaustive enumeration of feature columns x containers x all parameter choices on the real Scale/Impute filters vs. an exact-Fraction reference model'
     LEVEL_TEXT = ('Every feature column over {1,2,5,None,NaN,"a",0/absent} with <=3 rows (thorough <=4), alone and paired with a second feature, in dense-list, '
                   'dense-tuple, sparse and scalar form is run through the real Scale (25 shift/scale choices x 4 windows) and Impute (3 statistics x indicator x 4 windows) '
@@ -566,6 +667,7 @@ class C11(Check):
                     for cont in ('list', 'sparse', 'scalar'):
                         for col in itertools.product([1, 2, 5, None], repeat=4):
                             if op == 'impute' or None in col: yield {'op': op, 'cont': cont, 'cols': [list(col)]}
+            if n == 2: yield from self.reuse_cases(tier)
             # Environments level (composition): small data alphabet (3 rows and all 25 Scale pairs only in thorough)
             if n <= (2 if tier == 'quick' else 3):
                 for op in ('env_impute', 'env_scale'):
@@ -577,9 +679,45 @@ class C11(Check):
                                 for c2 in itertools.product(SMALL_TOKENS, repeat=n):
                                     yield {'op': op, 'cont': cont, 'cols': [list(c1), list(c2)], **extra}
 
+    def reuse_cases(self, tier):
+        """Re-use dimension: the SAME filter object (directly, and through one Environments.scale/impute call over
+        several environments) sees a sequence of streams.  All ordered pairs (A,B) of columns of a sub-alphabet:
+        sequence A,A,B,A = same data twice, different data, and back."""
+        thorough = tier != 'quick'
+        alpha = [1, 2, 5, None, 'nan', 'a'] if thorough else [1, 2, 5, None]
+        one = [[list(c)] for n in (1, 2) for c in itertools.product(alpha, repeat=n)]
+        if thorough: one += [[list(c)] for c in itertools.product([1, 5, None], repeat=3)]
+        # contexts with one and with two features (environments need not have the same number of features)
+        two = [[list(c)] for c in itertools.product([1, 5], repeat=2)] + \
+              [[list(c1), list(c2)] for c1 in itertools.product([1, 5], repeat=2) for c2 in ((2, 2), (2, None), (None, 5))]
+        for op in ('reuse_scale', 'reuse_impute'):
+            for cont in ('list', 'sparse', 'scalar'):
+                for A in one:
+                    for B in one:
+                        yield {'op': op, 'cont': cont, 'seq': [A, A, B, A] if A != B else [A, A]}
+            for cont in ('list', 'sparse'):
+                for A in two:
+                    for B in two:
+                        if A != B and len(A) + len(B) > 2: yield {'op': op, 'cont': cont, 'seq': [A, A, B, A], 'pset': 'reduced'}
+        small = [[list(c)] for c in itertools.product([1, 2, 5, None], repeat=2)]
+        if thorough: small = [[list(c)] for c in itertools.product([1, 2, 5, None], repeat=1)] + small + two[4:]
+        for op in ('env2_scale', 'env2_impute'):
+            for cont in ('list', 'sparse', 'scalar'):
+                for A in small:
+                    for B in small:
+                        if A == B or (cont == 'scalar' and len(A) + len(B) > 2): continue
+                        yield {'op': op, 'cont': cont, 'seq': [A, B], 'pset': 'reduced'}
+                        if thorough and A < B: yield {'op': op, 'cont': cont, 'seq': [A, B, A], 'pset': 'reduced'}
+
     def param_space(self, case):
-        n = len(case['cols'][0])
-        if 'params' in case: return [tuple(tuple(p) if isinstance(p, list) and case['op'] != 'env_impute' else p for p in case['params'])]
+        n = max(len(c[0]) for c in case['seq']) if 'seq' in case else len(case['cols'][0])
+        if 'params' in case: return [tuple(tuple(p) if isinstance(p, list) and not case['op'].endswith('env_impute') and not case['op'].endswith('env2_impute') else p for p in case['params'])]
+        if case['op'] in ('reuse_scale', 'reuse_impute'):
+            sub = dict(case, op=case['op'][6:], cols=case['seq'][0]); del sub['seq']
+            return [p for p in self.param_space(sub) if p[2] != n + 1 or n == 1]
+        if case['op'] == 'env2_scale': return [(sh, sc, u) for sh, sc in REDUCED_PAIRS for u in (None, 1)]
+        if case['op'] == 'env2_impute':
+            return [(sl, ind, u) for sl in ('mean', ['median'], ['mean', 'mode'], ['mode', 'median']) for ind in (False, True) for u in (None, 1)]
         if case['op'] == 'scale':
             if case['cont'] == 'sparse':     # shift != 0 is (documentedly) rejected for sparse contexts: a few such combinations suffice
                 pairs = [(0, sc) for sc in SCALES] + [(2, 3), ('min', 'minmax'), ('mean', 'std'), ('med', 'iqr')]
@@ -598,14 +736,21 @@ class C11(Check):
         idx = acc._cur[0] if acc._cur else 0
         space = self.param_space(case)
         acc.evaluations += len(space) - 1
-        op, cont, cols = case['op'], case['cont'], case['cols']
+        op, cont = case['op'], case['cont']
+        cols = case['seq'] if 'seq' in case else case['cols']
+        wkey = 'seq' if 'seq' in case else 'cols'
         for pi, params in enumerate(space):
             try:
                 nontrivial, sig = evaluate(op, cont, cols, params)
             except Fail as f:
                 key = classify(case, params, f)
-                w = {'op': op, 'cont': cont, 'cols': cols, 'params': list(params)}
-                acc.violation(key, f'{f.what}   [{op} {cont} cols={cols} params={list(params)}]', w)
+                if hasattr(f, 'base'):
+                    w = {'op': f.base[0], 'cont': cont, 'cols': f.base[1], 'params': list(params)}
+                    acc.violation(key, f'{f.base[2]}   [{f.base[0]} {cont} cols={f.base[1]} params={list(params)}]', w)
+                    continue
+                w = {'op': op, 'cont': cont, wkey: cols, 'params': list(params)}
+                step = f'call {f.step + 1} of the same object: ' if hasattr(f, 'step') else ''
+                acc.violation(key, f'{step}{f.what}   [{op} {cont} {wkey}={cols} params={list(params)}]', w)
                 continue
             acc.outcome(sig)
             if nontrivial: acc.mark_nontrivial(idx * 1024 + pi if 'params' not in case else None)
